@@ -14,7 +14,7 @@ RULE = ('one case = one scripted server presenting chosen public-key blobs durin
         'signed by RSA (1024..8192), Ed25519 and ECDSA (P-256/384/521) CAs; text, verbose and JSON.  Oracle: reported size == bit length of the presented modulus (independent blob parser), CA type/size likewise, fingerprints == '
         'hashlib SHA-256/MD5 of the presented blob (one RSA-family entry, none for certificates), differential threshold oracle on the notes relative to the baseline.  Non-trivial: probe answered and a size or fingerprint compared; '
         'distinct = distinct (blob set, name list, rendering)')
-REQUIRED = {'cert_beside_plain_rsa': 10, 'plain_beside_cert_checks': 20, 'sizes_compared': 40, 'fingerprints_compared': 40, 'threshold_checks': 40, 'below_2048': 5, 'warn_band': 5, 'ca_checks': 8, 'json_runs': 10}
+REQUIRED = {'probes_refused_after_small_key': 6, 'cert_beside_plain_rsa': 10, 'plain_beside_cert_checks': 20, 'sizes_compared': 40, 'fingerprints_compared': 40, 'threshold_checks': 40, 'below_2048': 5, 'warn_band': 5, 'ca_checks': 8, 'json_runs': 10}
 ASSUMPTIONS = ['moduli are multiples of 64 bits as the quantifier says; sizes that are not a multiple of 16 bits form a separate sub-family run in the thorough tier only (the tool measures whole bytes)',
                'threshold oracle is differential (notes at size B minus notes at 4096 bits for the same names), so note wording is not frozen',
                'for certificates both the host key and the CA key are rated; equal warning texts may be merged by the tool, so ">= 1 extra warning" is demanded, not a count']
@@ -49,6 +49,10 @@ def cases(tier, seed):
     for t in ('ed25519', 'ed448'):
         for rnd in ('text', 'json', 'verbose'):
             cs.append({'kind': 'fixed', 'type': t, 'render': rnd})
+    # the server presents a small RSA key (or certificate) and then refuses the probes for its other host-key types: whatever was noted for the RSA key stays with the RSA key
+    for i, (first, bits) in enumerate([('rsa', 1024), ('rsa', 2048), ('rsa-cert', 1024), ('rsa-cert', 2048), ('rsa', 3072)]):
+        for rnd in (('text', 'json') if tier == 'thorough' else (['json', 'text'][i % 2],)):
+            cs.append({'kind': 'partial', 'first': first, 'bits': bits, 'render': rnd})
     # plain RSA names and RSA certificates under each of their three names side by side, with different keys: fingerprints are those of the plain key, sizes those of each key
     CERTS = ['ssh-rsa-cert-v01@openssh.com', 'rsa-sha2-256-cert-v01@openssh.com', 'rsa-sha2-512-cert-v01@openssh.com']
     i = 0
@@ -281,6 +285,37 @@ def run_certmix(c):
     return viol, counters
 
 
+def run_partial(c):
+    first_names = ['rsa-sha2-512', 'ssh-rsa'] if c['first'] == 'rsa' else ['ssh-rsa-cert-v01@openssh.com']
+    others = ['ssh-ed25519', 'ssh-ed448', 'ecdsa-sha2-nistp256']
+    viol, counters = [], {}
+
+    def script(bits):
+        hk = {n: ({'type': 'rsa', 'bits': bits} if c['first'] == 'rsa' else {'type': 'rsa-cert', 'bits': 4096, 'ca': {'type': 'rsa', 'bits': bits}}) for n in first_names}
+        # no entry for the other types: the peer closes the probe connection after the KEXDH_INIT for them
+        return {'banner': 'SSH-2.0-OpenSSH_9.1', 'kex': audit.sym_kex(['curve25519-sha256'], first_names + others, ['aes128-ctr'], ['hmac-sha2-256']), 'hostkeys': hk, 'hostkey_default': None, 'gex': None}
+    r, res, fps, p = observe(script(c['bits']), c['render'], first_names + others)
+    rb, base, _f, _p = observe(script(4096), c['render'], first_names + others)
+    if res is None or base is None:
+        viol.append(_v('C11/audit-failed:status%s' % (r.status if res is None else rb.status), 'audit did not complete', out=(r if res is None else rb).out[-300:]))
+        return viol, counters
+    if p.count('hostkey-refused') == 0:
+        return viol, counters
+    counters['probes_refused_after_small_key'] = p.count('hostkey-refused')
+    if c['render'] == 'json':
+        counters['json_runs'] = 1
+    for n in others:
+        o, b = res.get(n), base.get(n)
+        if o is None or b is None:
+            viol.append(_v('C11/key-missing', 'advertised host key absent from the report', name=n))
+            continue
+        if o['bits'] is not None or o['ca_bits'] is not None:
+            viol.append(_v('C11/size-for-unmeasured-key', 'a host key whose probe was refused is reported with a size', name=n, got=[o['bits'], o['ca_bits']]))
+        if o['notes'] != b['notes']:
+            viol.append(_v('C11/notes-of-unmeasured-key-depend-on-other-key', 'the notes of a host key whose probe was refused change with the size of the RSA key presented before it', name=n, got=o['notes'], want=b['notes'], rsa_bits=c['bits']))
+    return viol, counters
+
+
 def run_fixed(c):
     t = c['type']
     name = 'ssh-' + t
@@ -301,7 +336,7 @@ def run_fixed(c):
 
 
 def run_case(c):
-    fn = {'rsa': run_rsa, 'cert': run_cert, 'fixed': run_fixed, 'certmix': run_certmix}[c['kind']]
+    fn = {'rsa': run_rsa, 'cert': run_cert, 'fixed': run_fixed, 'certmix': run_certmix, 'partial': run_partial}[c['kind']]
     viol, counters = fn(c)
     if viol is None:
         return {'verdict': 'inconclusive', 'why': counters.get('why')}
@@ -310,5 +345,5 @@ def run_case(c):
         if v['key'] not in seen:
             seen.add(v['key'])
             uniq.append(v)
-    return {'violations': uniq, 'counters': counters, 'nontrivial': counters.get('fingerprints_compared', 0) + counters.get('sizes_compared', 0) > 0,
+    return {'violations': uniq, 'counters': counters, 'nontrivial': counters.get('fingerprints_compared', 0) + counters.get('sizes_compared', 0) + counters.get('probes_refused_after_small_key', 0) > 0,
             'sample': {'case': c, 'observed': counters}, 'sample_kind': c['kind'] + ':' + c['render']}
